@@ -475,6 +475,7 @@ func (g *generator) candidates(p *gpkg, t *gtype, v, w string) []string {
 			"_ = func(q "+tr(6)+") {}", "_ = func() *"+tr(7)+" { return nil }",
 			"_ = struct{ F "+tr(8)+" }{}",
 			v+".Misses++", v+".Hits = 1", w+".Misses += 2",
+			v+".X, "+v+".Items[0] = 1, 2", v+".Items[1], "+v+".X = 3, 4", v+".X, "+w+".Cache, "+v+".Items[2] = 5, 6, 7",
 			v+".X &^= 1", v+".X <<= 2", w+".X |= 3", v+".X %= 4", v+".X ^= 5", w+".X >>= 1", v+".X *= 2", v+".X /= 3", v+".X &= 7",
 			// a reported literal that contains further instantiations
 			"_ = "+tr(-1)+"{Any: "+tr(-1)+"{}}", "_ = &"+tr(-1)+"{Any: new("+tr(12)+")}", "_ = "+tr(-1)+"{Any: func() any { var z "+tr(-1)+"; return z }()}",
